@@ -325,7 +325,26 @@ func unmarshalSourceFile(source string) (*sourceFile, error) {
 	if len(file.RelPath) < 1 {
 		return nil, simpleTrzszError("Invalid source file: %s", source)
 	}
+	for _, name := range file.RelPath {
+		if !isSafeFileName(name) {
+			return nil, simpleTrzszError("Invalid source file: %s", source)
+		}
+	}
 	return &file, nil
+}
+
+// isSafeFileName reports whether a name received from the peer can be used as one path element
+// below the destination directory: not empty, not "." or "..", no path separator, not absolute.
+func isSafeFileName(name string) bool {
+	if name == "" || name == "." || name == ".." || filepath.IsAbs(name) || filepath.VolumeName(name) != "" {
+		return false
+	}
+	for i := 0; i < len(name); i++ {
+		if name[i] == '/' || os.IsPathSeparator(name[i]) {
+			return false
+		}
+	}
+	return true
 }
 
 type targetFile struct {
